@@ -908,6 +908,7 @@ func main() {
 		writeIfChanged(filepath.Join(*out, "Catalogue.lean"), sb.String())
 		js, _ := json.MarshalIndent(facts, "", " ")
 		writeIfChanged(filepath.Join(*out, "catalogue.json"), string(js)+"\n")
+		writeFaultFacts(*repo, *out)
 	} else {
 		js, _ := json.MarshalIndent(facts, "", " ")
 		fmt.Println(string(js))
